@@ -210,7 +210,7 @@ def run(prop, tier):
            "samples": [{"files": projs[0]["files"], "orders": orders(projs[0]["files"])}],
            "projects": len(projs), "typegen_projects": sum(1 for p in projs if p["origin"] == "typegen"), "generated_projects": sum(1 for p in projs if p["origin"] == "generated"),
            "processes": K, "compilations": len(recs), "known_findings_hit": sorted({k for k, _ in known_hits}),
-           "binding_selftest": "rejected: output-differs-between-processes", "exhaustive": True,
+           "binding_selftest": "rejected: output-differs-between-processes", "exhaustive": False,
            "rule": f"every project of Determinism.tla (all kind vectors of length {n} x 4 access styles) and every corpus program, compiled in "
                    f"{K} fresh OS processes (lazy registration) and under 2-3 other registration orders"}
     vlib.write_evidence(prop, tier, cov, time.time() - t0, len(violations),
